@@ -17,6 +17,7 @@
 use std::fmt::{Debug, Display};
 
 use crate::dataplane_path::standard::{
+    layout::StdPathMetaLayout,
     mac::{
         ForwardingKey,
         algo::{calculate_hop_mac, mac_beta_step},
@@ -317,6 +318,12 @@ impl StandardPathView {
             }
             // SEGMENT CHANGE: advance to the next segment
             (false, true) => {
+                // The next hop field index must fit the 6 bit CurrHF field, otherwise the write
+                // below would wrap the pointer back to the start of the path.
+                if curr_hop_idx + 1 > StdPathMetaLayout::MAX_TOTAL_HOPS {
+                    return Err(AdvanceError::HopOutOfBounds(curr_hop_idx as u8 + 1));
+                }
+
                 let next_hop_field = self
                     .hop_field(curr_hop_idx + 1)
                     .ok_or(AdvanceError::HopOutOfBounds(curr_hop_idx as u8 + 1))?;
@@ -488,6 +495,12 @@ impl StandardPathView {
 
         if is_final_hop {
             // We are at the end of the path, we can't advance further
+            return Err(AdvanceError::HopOutOfBounds(curr_hop_idx as u8 + 1));
+        }
+
+        // The next hop field index must fit the 6 bit CurrHF field, otherwise the write below would
+        // wrap the pointer back to the start of the path.
+        if curr_hop_idx + 1 > StdPathMetaLayout::MAX_TOTAL_HOPS {
             return Err(AdvanceError::HopOutOfBounds(curr_hop_idx as u8 + 1));
         }
 
